@@ -42,7 +42,9 @@ SPEC = Spec(
          "reference to a provider MAP / an unresolvable reference (exact-override, must-succeed and provider-call oracles; every reference "
          "provider reports its calls as `tr retrieved`). dname (1/5 of rand): the only reference has a $ at the first/last/middle position of "
          "its NAME (with/without scheme, whole/embedded, nested, in a list): must be the $-in-name error, provider never consulted. "
-         "Second session: corpus 48-51 + every fourth merge case (`append`, ~820 per quick run) run Resolve with the confmap.enableMergeAppendOption gate ON: 2-4 "
+         "Second session: corpus 52 (a provider-owned map referenced three times) and 53 (included document starting with a comment that holds an "
+         "unresolvable reference); every reference provider hands out ONE object per raw value and it is deep-compared with a pristine twin after Resolve; "
+         "corpus 48-51 + every fourth merge case (`append`, ~820 per quick run) run Resolve with the confmap.enableMergeAppendOption gate ON: 2-4 "
          "sources over four colliding keys whose values are mostly lists from a small element pool (strings, ints, bools, floats, nil, and - "
          "VERIF_C12_APPEND_DEEP, default on - maps and lists as ELEMENTS), same key list/map/scalar in different sources, references and $$ in list "
          "elements (1 in 4), repeated locations; model resolveAppend, Go oracle vSpecMergeAppend, Lean prop leafpaths on every such case. "
@@ -54,7 +56,8 @@ SPEC = Spec(
          "class, the strings the recording providers receive in order, and the resolved config (every provider returns a map that is a fixed function of the "
          "location text; gate on in every fourth case; model resolveSettings); life = 1-4 Resolve calls then Shutdown on sources with references into a "
          "provider table that changes between calls (missing names: Resolve fails half-way; non-map source; unretrievable location; 1 in 3 cases with failing "
-         "Close functions), observed per call: the Close calls in order, len(r.closers), whether closing failed; inputs from the implementation: number of "
+         "Close functions), observed per call: the Close calls in order, len(r.closers), whether closing failed; Go oracles per call: provider-owned values unchanged "
+         "(twin), result = what a fresh resolver returns for the current provider state; inputs from the implementation: number of "
          "successful Retrieve calls per call. non-trivial = a token value with a reference "
          "and an escape, or more than one source / URI / more than two life calls; distinct = distinct op sequences.",
     trusted_base=[
